@@ -14,9 +14,18 @@ CLASS = {"full": FULL, "okonly": OKONLY, "direct": DIRECT}
 class World(object):
     """One real stack + the bookkeeping that maps model ids to concrete requests."""
     def __init__(self, rng, cat):
-        from yowsup.layers.interface import YowInterfaceLayer
+        from yowsup.layers.interface import YowInterfaceLayer, ProtocolEntityCallback
         self.rng, self.cat = rng, cat
-        self.st, self.bottom, self.group, self.app, self.top = stackkit.protocol_stack(app_cls=YowInterfaceLayer)
+        World.N = getattr(World, "N", 0) + 1
+
+        class AppWithIqHandler(YowInterfaceLayer):
+            """An application that also declares a general handler for iq stanzas (as the bundled command-line client does): replies to its OWN
+            requests still go to the callbacks registered with the request, everything else to the handler (which here hands it on upward, so
+            that the probe above sees the same as with a plain interface layer)."""
+            @ProtocolEntityCallback("iq")
+            def on_iq(app, entity):
+                app.toUpper(entity)
+        self.st, self.bottom, self.group, self.app, self.top = stackkit.protocol_stack(app_cls=YowInterfaceLayer if World.N % 2 else AppWithIqHandler)
         self.reqs = []      # (kind, entity)
         self.calls = []     # (model id, which, original_is_same)
         self.unknown = 0
